@@ -220,6 +220,25 @@ theorem gen_init_bysecond_eq_model (a : Args) :
     Gen.init_bysecond a.freq a.dtstart a.interval a.bysecond = normUnit a.freq 6 a.interval a.dtstart.ss a.bysecond 60 :=
   RRuleGen.init_bysecond_eq _ _ _ _
 
+/-- `if interval < 1: raise ValueError` — the guard of `construct` -/
+theorem gen_init_interval_eq_model (i : Int) : Gen.init_interval i = if i < 1 then .error .ValueError else .ok () :=
+  RRuleGen.init_interval_eq i
+/-- the week start: `calendar.firstweekday()` (the explicit input `fwd` of `constructW`) exactly when `wkst` is None — `resolveW` -/
+theorem gen_init_wkst_eq_model (fwd : Int) (a : Args) : Gen.init_wkst fwd a.wkst = .ok ((resolveW fwd a).wkst.getD 0) := by
+  rw [RRuleGen.init_wkst_eq]; rfl
+/-- the defaults block (no BYWEEKNO / BYYEARDAY / BYMONTHDAY / BYDAY / BYEASTER: BYMONTH+BYMONTHDAY, BYMONTHDAY or BYDAY from
+    dtstart by frequency) — the arguments `bymonthOf` / `monthdayArg` / `weekdayArg` normalise -/
+theorem gen_init_defaults_eq_model (a : Args) :
+    Gen.init_defaults a.freq a.dtstart a.bymonth a.bymonthday a.byyearday a.byeaster a.byweekno a.byweekday =
+      .ok (if noDayParts a && a.freq == 0 && a.bymonth.isNone then some [a.dtstart.m] else a.bymonth,
+           monthdayArg a, weekdayArg a) :=
+  RRuleGen.init_defaults_eq a
+/-- the timeset block — `timesetOf` (below HOURLY all three tuples are set, as `normUnit` guarantees) -/
+theorem gen_init_timeset_eq_model (a : Args) (bh bm bs : Option (List Int))
+    (h : a.freq < 4 → bh.isSome = true ∧ bm.isSome = true ∧ bs.isSome = true) :
+    Gen.init_timeset a.freq bh bm bs = timesetOf a bh bm bs :=
+  RRuleGen.init_timeset_eq a bh bm bs h
+
 example : Gen.init_bymonthday (some [3, -1, 3, 15, -2]) = .ok ([3, 15], [-2, -1]) := by decide
 example : Gen.init_bysetpos (some [1, 367]) = .error .ValueError := by decide
 example : Gen.init_byhour 4 { y := 1997, m := 9, d := 2, hh := 17, mm := 0, ss := 0, us := 0 } 4 (some [2, 21, 1]) = .ok (some [1, 21]) := by decide
